@@ -112,18 +112,28 @@ def run_session(prop, run_seed, profile, monitors, ops=None, known=None, own_tre
                 res.log.append(jdump({"step": step, "op": op, "left_out": True}))
                 res.extra.setdefault("snapshots", []).append(None)
                 continue
-            labels = classify(op, args, U)
-            if known is not None and known.quarantined(op["op"], labels):
-                res.stats["quarantined"] += 1
-                res.log.append(jdump({"step": step, "op": op, "quarantined": labels}))
-                continue
-            pre = U.snapshot()
+            env.fuel[0] = seams.FUEL
             try:
-                outcome = interp.apply(op, args)
-            except Skip as exc:
-                res.stats["skipped"] += 1
-                res.log.append(jdump({"step": step, "op": op, "skip": str(exc)}))
-                continue
+                labels = classify(op, args, U)
+                if known is not None and known.quarantined(op["op"], labels):
+                    res.stats["quarantined"] += 1
+                    res.log.append(jdump({"step": step, "op": op, "quarantined": labels}))
+                    continue
+                pre = U.snapshot()
+                try:
+                    outcome = interp.apply(op, args)
+                except Skip as exc:
+                    res.stats["skipped"] += 1
+                    res.log.append(jdump({"step": step, "op": op, "skip": str(exc)}))
+                    continue
+            except seams.Runaway as exc:
+                # the library keeps copying (links that lead into their own copies): no property
+                # speaks about such documents; counted, and the steps before are already judged
+                res.stats["abandoned_runaway"] = res.stats.get("abandoned_runaway", 0) + 1
+                res.log.append(jdump({"step": step, "op": op, "abandoned": str(exc)}))
+                break
+            finally:
+                env.fuel[0] = None
             U.rediscover()
             guard = tree_structure(U)
             if guard is not None and not own_tree and guard[0] != "tree.acyclic":
@@ -199,7 +209,8 @@ def run_session(prop, run_seed, profile, monitors, ops=None, known=None, own_tre
                     break
             if res.violation:
                 break
-        if finale is not None and res.violation is None and not res.stats["abandoned_corrupt_universe"]:
+        if finale is not None and res.violation is None and not res.stats["abandoned_corrupt_universe"] \
+                and not res.stats.get("abandoned_runaway"):
             v = finale(U, interp, env, mem, res)
             if v:
                 res.violation = {"monitor": v[0], "message": v[1], "step": len(case["ops"]),
